@@ -84,13 +84,17 @@ VARIANTS = [(n, ["b", n]) for n in (
 PTRARR = [('zarr', ["za", ["b", "utf8"]]), ('parr', ["pa", ["b", "gint"]]), ('garray', ["ga", "array"]),
           ('gptrarray', ["ga", "ptrarray"]), ('gbytearray', ["ga", "bytearray"]), ('glist', ["gl", "list"]),
           ('ghash', ["gl", "hash"])]
+# pointers to scalars narrower than a pointer (guint8 *m ...), plus 64-bit controls
+PSCALAR = [('p' + n, ["ps", n]) for n in ('gint8', 'guint8', 'gint16', 'guint16', 'gint32', 'guint32', 'gint', 'gboolean',
+                                          'gfloat', 'gunichar', 'gint64', 'gdouble')]
 EXTRA = [(n, t) for n, t in PTRARR if n not in ('parr', 'glist', 'ghash')] + \
-        [('%s[%d]' % (n, k), ["a", t, k]) for k in (1, 2, 3) for n, t in PTRARR]
+        [('%s[%d]' % (n, k), ["a", t, k]) for k in (1, 2, 3) for n, t in PTRARR] + PSCALAR
 ATOMS = CORE + VARIANTS + EXTRA
 NCORE = len(CORE)
 NALL = len(CORE) + len(VARIANTS)       # kinds of the all-kinds alphabet
 EXTRA_IDX = list(range(NALL, len(ATOMS)))
 EXTRA_N2_IDX = [i for i in EXTRA_IDX if ATOMS[i][0].endswith('[2]')]
+PS_IDX = [i for i in EXTRA_IDX if ATOMS[i][1][0] == 'ps']
 CB = [n for n, _ in ATOMS].index('cb')
 # scalar kinds used for the exhaustive inner layouts of the nesting families
 INNER = [a for a in CORE if a[0] in ('i8', 'u16', 'i32', 'i64', 'flt', 'dbl', 'ptr', 'bool', 'en', 'arr', 'cb', 'long')]
@@ -215,10 +219,77 @@ def expand(spec):
         return {'k': 'en:%s:%d..%d' % ('bitfield' if flags else 'enumeration', lo, hi), 'f': fam,
                 'd': [["E", "E", vals, flags], ["S", "O", [i8, ["e", "E"], i8]], ["U", "V", [["a", ["e", "E"], 3], i8]]],
                 'm': 'enum-storage:64bit' if big else None, 'u': None}
+    if fam == 'ns':
+        dep, local, users = ns_decls(*spec[1:])
+        return {'k': 'ns:inner%d:value%d:local%d' % tuple(spec[1:]), 'f': fam, 'd': dep + local + users, 'm': None,
+                'u': None}
     if fam in ('x', 'xs'):
         k, decls, mech, unspec = X_CASES[X_INDEX[spec[1]]]
         return {'k': 'x:' + k, 'f': fam, 'd': decls, 'm': mech, 'u': unspec}
     raise ValueError(spec)
+
+
+# two namespaces: Dep defines Inner, Value and Outer {Inner i; Value v; gint8 t;} with UNQUALIFIED references;
+# App embeds Dep.Outer by value, without / with same-named local types Inner and Value of another layout
+NS_INNER = [[i8], [dbl], [i32, i8], [i8, i64]]
+NS_VALUE = [["U", [["b", "gint16"], ["a", i8, 3]]], ["U", [dbl, i8]], ["E", [-1, 1]]]
+NS_LOCAL = [None, ([dbl, dbl, i8], [i64, ["a", i8, 9]]), ([i8], [i8])]
+
+
+def ns_decls(ii, vi, li):
+    v = NS_VALUE[vi]
+    dv = ["E", "DepValue", v[1], 0] if v[0] == 'E' else ["U", "DepValue", v[1]]
+    dep = [["S", "DepInner", NS_INNER[ii]], dv,
+           ["S", "DepOuter", [["v", "DepInner"], ["e" if v[0] == 'E' else "v", "DepValue"], i8]]]
+    local = []
+    if NS_LOCAL[li]:
+        local = [["S", "Inner", NS_LOCAL[li][0]], ["U", "Value", NS_LOCAL[li][1]]]
+    ov = ["xv", "Dep.Outer", "DepOuter"]
+    users = [["S", "A", [i8, ov, i8]], ["U", "B", [i8, ov]], ["S", "M", [ov]], ["S", "N", [i8, ["v", "M"], i8]],
+             ["S", "P", [i8, ["a", ov, 2]]]]
+    return dep, local, users
+
+
+def _strip_dep(x):
+    if isinstance(x, list):
+        return [_strip_dep(y) for y in x]
+    if isinstance(x, str) and x.startswith('Dep') and len(x) > 3 and x[3].isupper():
+        return x[3:]
+    return x
+
+
+def ns_solo(b, spec, order, wd, gcc):
+    """-> (problems, info).  order[0]: the same-named local types come before (1) / after (0) their users"""
+    c = expand(spec)
+    dep, local, users = ns_decls(*spec[1:])
+    inc = os.path.join(wd, 'nsinc')
+    os.makedirs(inc, exist_ok=True)
+    ddecls = [_strip_dep(d) for d in dep]
+    dl = set(d[1] for d in ddecls)
+    depdoc = M.G.Doc('Dep', '1.0', [M.gir_entry(d, '', dl) for d in ddecls], shared_library='libdep.so.0',
+                     c_prefix='Dep', symbol_prefix='dep')
+    with open(os.path.join(inc, 'Dep-1.0.gir'), 'w') as f:
+        f.write(depdoc.xml())
+    app = (local + users) if order[0] else (list(reversed(users)) + local)
+    al = set(d[1] for d in app)
+    appdoc = M.G.Doc('Test', '1.0', [M.gir_entry(d, '', al) for d in app], includes=[('Dep', '1.0')],
+                     shared_library='libtest.so.0', c_prefix='C', symbol_prefix='c')
+    xml = appdoc.xml()
+    rc, err, data = tools.compile_gir(b, xml, wd, includedirs=[inc])
+    err = _clean(err)
+    info = {'rc': rc, 'stderr': err.strip()[-400:], 'gir': xml, 'dep_gir': depdoc.xml()}
+    if rc != 0 or data is None:
+        return [('rejected', 'g-ir-compiler exit %d: %s' % (rc, err.strip()[-300:]))], info
+    model, fprobs = typelib.decode(data)
+    if model is None:
+        return [('undecodable', repr(fprobs))], info
+    ents = dict((e['name'], e) for e in model['entries'] if e.get('local'))
+    env = dict((d[1], d) for d in c['d'])
+    probs = []
+    for d in local + users:
+        probs += compare_decl(d, env, gcc.get(('', d[1])), ents.get(d[1]))
+    info['typelib'] = dict((d[1], _brief(ents.get(d[1]))) for d in local + users)
+    return probs, info
 
 
 def seqs(n_atoms, maxlen, skip_all_below=None, exclude=()):
@@ -260,15 +331,16 @@ def all_specs(tier):
             for a in base:
                 out.append(('seq', cont, (x, a)))
                 out.append(('seq', cont, (a, x)))
-                for b in base:
+                for b in (base[0], base[3]):
                     out.append(('seq', cont, (x, a, b)))
                     out.append(('seq', cont, (a, x, b)))
                     out.append(('seq', cont, (a, b, x)))
-    inner = []
+    inner1 = []                                     # inner layouts embedded through every n1 context, one n2 shape
     for ic in 'SU':
         for x in EXTRA_N2_IDX:                      # ... and nested by value in another record
-            inner.append((ic, (x,)))
-            inner.append((ic, (base[0], x)))
+            inner1.append((ic, (x,)))
+            inner1.append((ic, (base[0], x)))
+    inner = []
     for ic in 'SU':
         for L in (1, 2):
             for idx in itertools.product(INNER_IDX, repeat=L):
@@ -279,8 +351,9 @@ def all_specs(tier):
     for ic in 'SU':
         for L in (1, 2):
             for idx in itertools.product(Z_IDX, repeat=L):
-                inner.append((ic, idx))
-    for ic, idx in inner:
+                inner1.append((ic, idx))
+    inner1 += [(ic, idx) for ic in 'SU' for x in PS_IDX for idx in ((x,), (base[0], x))]
+    for ic, idx in inner + inner1:
         for ctx in range(len(N1_CTX)):
             for oc in 'SU':
                 out.append(('n1', ic, idx, ctx, oc))
@@ -288,11 +361,17 @@ def all_specs(tier):
         for mid in range(len(N2_MID)):
             for outer in range(len(N2_OUT)):
                 out.append(('n2', ic, idx, mid, outer))
+    for ic, idx in inner1:
+        out.append(('n2', ic, idx, 1, 0))
     pairs = [(lo, hi) for a, lo in enumerate(ENUM_VALUES) for hi in ENUM_VALUES[a:]]
     pairs.sort(key=lambda p: (max(abs(p[0]), abs(p[1])), p))        # simplest first
     for lo, hi in pairs:
         for flags in (0, 1):
             out.append(('en', lo, hi, flags))
+    for ii in range(len(NS_INNER)):
+        for vi in range(len(NS_VALUE)):
+            for li in range(len(NS_LOCAL)):
+                out.append(('ns', ii, vi, li))
     for c in X_CASES:
         out.append(('xs' if c[2] in SOLO_MECHS else 'x', c[0]))
     return out
@@ -489,6 +568,8 @@ def solo(b, spec, order, wd, gcc=None):
     c = expand(spec)
     if gcc is None:
         gcc = gcc_numbers([('', c)], wd, 'solo')
+    if spec[0] == 'ns':
+        return ns_solo(b, spec, order, wd, gcc)
     rc, err, ents, xml = compile_doc(b, [('', c)], order, wd)
     info = {'rc': rc, 'stderr': err.strip()[-400:], 'gir': xml}
     if ents is None:
@@ -549,7 +630,7 @@ def _work(chunk):
                     part.add(unspecified=1)
                 else:
                     part.nontrivial(c['k'])
-            if fam == 'xs':
+            if fam in ('xs', 'ns'):
                 # each case alone: these make the compiler abort
                 for (pfx, c), spec in zip(cases, specs):
                     for order in orders:
@@ -628,9 +709,9 @@ def run(ctx):
     for s in specs:
         by_fam.setdefault(s[0], []).append(s)
     batches = []
-    for fam in ('seq', 'n1', 'n2', 'en', 'x', 'xs'):
+    for fam in ('seq', 'n1', 'n2', 'en', 'x', 'xs', 'ns'):
         ss = by_fam.get(fam, [])
-        size = 12 if fam == 'xs' else BATCH
+        size = 12 if fam in ('xs', 'ns') else BATCH
         for i in range(0, len(ss), size):
             batches.append((fam, ss[i:i + size]))
     thorough = ctx.tier == 'thorough'
@@ -643,11 +724,13 @@ def run(ctx):
                  '(gchar**, gint*, GArray*, GPtrArray*, GByteArray*, and [1],[2],[3] of those and of GList*/GHashTable*) alone '
                  'and in first/middle/last position among i8,i32,ptr,dbl, nested by value through n1/n2, and every '
                  'length-3 sequence over {i8,i32,ptr,dbl, T[0] for 6 element types} with a zero-length array; en: all %d (min,max) pairs over %d boundary values x '
-                 '{enumeration, bitfield}; x: %d scanner-producible special shapes (one violation key per mechanism). '
+                 '{enumeration, bitfield}; x: %d scanner-producible special shapes (one violation key per mechanism); ns: %d two-namespace cases '
+                 '(App embeds Dep.Outer whose members are unqualified Dep names, without/with same-named local types). '
                  'non-trivial = every case except bit-field ones'
                  % (4 if thorough else 3, NCORE, ' (plus length 3 with exactly one non-core kind)' if thorough else '',
                     NALL, len(INNER), len(EXTRA),
-                    len(ENUM_VALUES) * (len(ENUM_VALUES) + 1) // 2, len(ENUM_VALUES), len(X_CASES)),
+                    len(ENUM_VALUES) * (len(ENUM_VALUES) + 1) // 2, len(ENUM_VALUES), len(X_CASES),
+                    len(NS_INNER) * len(NS_VALUE) * len(NS_LOCAL)),
             bounds={'core_len': 4 if thorough else 3, 'variant_len': '2 + one-variant triples' if thorough else 2, 'core_kinds': NCORE,
                     'kinds': NALL, 'pointer_array_kinds': len(EXTRA), 'inner_kinds': len(INNER), 'inner_len': 2, 'enum_values': len(ENUM_VALUES),
                     'cases': dict((f, len(v)) for f, v in sorted(by_fam.items())), 'batch': BATCH,
